@@ -1,0 +1,8 @@
+//go:build verif
+
+package formatter
+
+// Exports for the correspondence harness of /verif (build tag `verif` only).
+
+var VerifExtractNumberPart = extractNumberPart
+var VerifFormatIsFaithful = formatIsFaithful
